@@ -255,9 +255,10 @@ pub fn logical_canonical_path(l: &Logical) -> String {
 pub fn is_form_ct(ct: &[u8]) -> bool {
     // media type exactly the form type, charset absent or a UTF-8 label
     let mut parts = ct.split(|c| *c == b';');
-    let mt = parts.next().unwrap_or(b"");
-    let mt = String::from_utf8_lossy(mt).trim().to_string();
-    mt == "application/x-www-form-urlencoded"
+    // (bytes, and only space / tab count as padding: a no-break space next to the media type makes
+    // it another media type)
+    let mt = refm::trim_sp(parts.next().unwrap_or(b""));
+    mt == b"application/x-www-form-urlencoded"
 }
 
 pub fn header_values<'a>(l: &'a Logical, name: &str) -> Vec<&'a Vec<u8>> {
@@ -374,7 +375,12 @@ pub fn draw_date_form(t: &mut Tape, noise: u64) -> DateForm {
             false
         },
         frac_digits: if t.chance(3) {
-            1 + t.below(12)
+            // (beyond 9 the digits are truncated; beyond 19 they no longer fit a 64-bit integer)
+            if t.chance(5) {
+                18 + t.below(14)
+            } else {
+                1 + t.below(12)
+            }
         } else {
             0
         },
@@ -744,7 +750,14 @@ pub fn render(m: &Message, t: &mut Tape, o: &RenderOpts) -> Wire {
                 block.push((name.clone(), dv.clone()));
             }
         }
-        block.push((name.clone(), space_noise(v.as_bytes(), t, nhdr)));
+        // characters U+0080–U+00FF of the parameter strings stand for the single bytes 0x80–0xFF
+        // (a header value is bytes; NBSP / NEL next to a parameter are bytes 0xA0 / 0x85)
+        let vb: Vec<u8> = if v.chars().all(|c| (c as u32) < 256) {
+            v.chars().map(|c| c as u32 as u8).collect()
+        } else {
+            v.clone().into_bytes()
+        };
+        block.push((name.clone(), space_noise(&vb, t, nhdr)));
         for (dv, before) in &q.dup_authorization {
             if !*before {
                 block.push((name.clone(), dv.clone()));
